@@ -450,7 +450,105 @@ func checkConstantCuts(w *World, r *Report, reach map[*ssa.Function]bool) {
 			}
 		})
 	}
-	if n == 0 {
-		r.ok("R14.4", "(package)", "template data is never cut at a constant position", "-", "no slice expression with a constant bound >= 16 on strings, bytes or tokens on parse/render paths", false)
+	// … and never read through a constant limit: io.LimitReader / io.CopyN / io.LimitedReader with
+	// a constant, or one Read-family call (outside any loop) into a buffer of constant size, on
+	// the way from a loader to the parser.  A limit that is meant to refuse large files truncates
+	// them unless the read asks for limit+1 bytes; either way the template's meaning changes at
+	// an absolute size.
+	loadReach := w.reachableFrom(w.loaderRoots())
+	inLoop := func(b *ssa.BasicBlock) bool {
+		seen := map[*ssa.BasicBlock]bool{}
+		var walk func(x *ssa.BasicBlock) bool
+		walk = func(x *ssa.BasicBlock) bool {
+			for _, s := range x.Succs {
+				if s == b {
+					return true
+				}
+				if !seen[s] {
+					seen[s] = true
+					if walk(s) {
+						return true
+					}
+				}
+			}
+			return false
+		}
+		return walk(b)
+	}
+	constInt := func(v ssa.Value) (int64, bool) {
+		for k := 0; k < 3; k++ {
+			if cv, ok := v.(*ssa.Convert); ok {
+				v = cv.X
+			}
+		}
+		c, ok := v.(*ssa.Const)
+		if !ok || c.Value == nil || c.Value.Kind() != constant.Int {
+			return 0, false
+		}
+		k, _ := constant.Int64Val(c.Value)
+		return k, true
+	}
+	nLim := 0
+	for _, fn := range w.pkgFuncs() {
+		if !reach[fn] && !loadReach[fn] {
+			continue
+		}
+		instrsOf(fn, func(in ssa.Instruction) {
+			switch x := in.(type) {
+			case *ssa.Call:
+				f := calleeFunc(x)
+				if f == nil || f.Pkg() == nil {
+					return
+				}
+				full := f.FullName()
+				args := x.Call.Args
+				switch full {
+				case "io.LimitReader":
+					if k, ok := constInt(args[1]); ok && k >= 16 {
+						nLim++
+						r.bad("R14.4", ssaName(fn), "data read through a constant limit", w.posOf(in.Pos()), fmt.Sprintf("template data is read through io.LimitReader with the constant limit %d: a source longer than that is silently cut there (a later `len > limit` test can never fire, the reader never yields more), so text and tags behind the limit vanish — the template renders differently below and above an absolute size", k))
+					}
+				case "io.CopyN":
+					if k, ok := constInt(args[2]); ok && k >= 16 {
+						nLim++
+						r.bad("R14.4", ssaName(fn), "data read through a constant limit", w.posOf(in.Pos()), fmt.Sprintf("template data is copied with io.CopyN and the constant count %d: a longer source is cut at an absolute size", k))
+					}
+				case "io.ReadFull", "io.ReadAtLeast", "(*os.File).Read", "(*os.File).ReadAt", "(*bufio.Reader).Read":
+					var buf ssa.Value
+					for _, a := range args {
+						if sl, ok := a.Type().Underlying().(*types.Slice); ok {
+							if b, ok := sl.Elem().Underlying().(*types.Basic); ok && b.Kind() == types.Uint8 {
+								buf = a
+							}
+						}
+					}
+					if buf == nil || inLoop(in.Block()) {
+						return
+					}
+					if s2, ok := buf.(*ssa.Slice); ok {
+						buf = s2.X
+					}
+					if ms, ok := unspill(buf).(*ssa.MakeSlice); ok {
+						if k, ok := constInt(ms.Len); ok && k >= 16 {
+							nLim++
+							r.bad("R14.4", ssaName(fn), "data read through a constant limit", w.posOf(in.Pos()), fmt.Sprintf("template data is read once into a buffer of the constant size %d: a longer source is cut at an absolute size", k))
+						}
+					}
+				}
+			case *ssa.Store:
+				// &io.LimitedReader{N: const}
+				if fa, ok := x.Addr.(*ssa.FieldAddr); ok && isNamed(fa.X.Type(), "io", "LimitedReader") {
+					if _, f := fieldOfAddr(fa); f == "N" {
+						if k, ok := constInt(x.Val); ok && k >= 16 {
+							nLim++
+							r.bad("R14.4", ssaName(fn), "data read through a constant limit", w.posOf(in.Pos()), fmt.Sprintf("template data is read through an io.LimitedReader with the constant limit %d: a longer source is cut at an absolute size", k))
+						}
+					}
+				}
+			}
+		})
+	}
+	if n == 0 && nLim == 0 {
+		r.ok("R14.4", "(package)", "template data is never cut at a constant position", "-", "no slice expression with a constant bound >= 16 on strings, bytes or tokens, and no constant read limit, on load/parse/render paths", false)
 	}
 }
